@@ -242,6 +242,9 @@ func (r *chainRun) doStep(st *CStep) *Violation {
 	touched := []int{ni}
 	var pre *Obs
 	armed := false
+	if r.cfg.NoTrace {
+		pre = n.ObsAll(r.u, StateObsOpts{Pool: true})
+	}
 	if st.FW > 0 || st.FR > 0 || st.Full {
 		f := simkv.Faults{DiskFull: st.Full}
 		if st.FW > 0 {
@@ -252,9 +255,6 @@ func (r *chainRun) doStep(st *CStep) *Violation {
 		}
 		n.Disk.Arm(f)
 		armed = true
-	}
-	if r.cfg.NoTrace {
-		pre = n.ObsAll(r.u, StateObsOpts{Pool: true})
 	}
 	failed := false
 	failKind := "all" // what a reported failure allows to change: all=nothing, state-atomic=ledger may have changed, walk=no no-trace check
